@@ -208,10 +208,13 @@ def check_python(report):
     # proto_type
     pt = m.member(fld, "proto_type")
     r6.need(pt is not None, "Field.proto_type")
-    src = ast.unparse(pt.node)
+    from ..pymodel import nreturn as _nret
+    e_pt = _nret(m, m.func("gapic.schema.wrappers.Field.proto_type"))
+    src = ast.unparse(e_pt) if e_pt is not None else ast.unparse(pt.node)      # normal form: hoisted constants inlined, locals substituted
     r6.instance("Field.proto_type")
-    r6.check("FieldDescriptorProto.Type.Name(self.field_pb.type)" in src.replace("\n", "").replace(" ", "").replace(",)", ")")
-             and "[len('TYPE_'):]" in src.replace(" ", ""), wr, pt.node.lineno, "Field.proto_type",
+    flat = src.replace("\n", "").replace(" ", "").replace(",)", ")")
+    r6.check("FieldDescriptorProto.Type.Name(self.field_pb.type)" in flat
+             and ("[len('TYPE_'):]" in flat or "[5:]" in flat or ".removeprefix('TYPE_')" in flat), wr, pt.node.lineno, "Field.proto_type",
              "proto_type must be FieldDescriptorProto.Type.Name(self.field_pb.type) with the 'TYPE_' prefix stripped")
     # name
     nm = m.member(fld, "name")
